@@ -56,7 +56,9 @@ ASSUMPTIONS = [
     "Zeeman structures with an empty or all-zero polarisation list, MSE calls with n_e <= 0 or T_e <= 0 and Stark "
     "parameters within 1e-6 relative of a fit-branch switching point are outside the statement (counted as skipped)",
 ]
-QUICK = dict(cases=10000, workers=2, timecap=45)
+ASAN_MODULES = ['cherab.core.model.lineshape.gaussian', 'cherab.core.model.lineshape.multiplet', 'cherab.core.model.lineshape.zeeman', 'cherab.core.model.lineshape.stark', 'cherab.core.model.lineshape.doppler', 'cherab.core.model.lineshape.beam.mse', 'cherab.core.atomic.zeeman', 'cherab.core.math.integrators.integrators1d']
+ASAN = dict(cases=6000, workers=8, timecap=240)
+QUICK = dict(cases=8000, workers=2, timecap=35)
 THOROUGH = dict(cases=600000, workers=16, timecap=600)
 REQUIRED = {"bins_gauss": 20000, "bins_stark": 5000, "total": 1500, "pol_sum": 10000, "zero_width": 60, "adds": 200,
             "judged:GaussianLine": 30, "judged:MultipletLineShape": 30, "judged:ZeemanTriplet": 30,
